@@ -44,7 +44,7 @@ func init() {
 		Run:             runC20,
 		Floors: func(tier string) map[string]int {
 			m := map[string]int{"requests": 2500, "invalid_requests_digest_checked": 1200, "health_probes": 100, "proto_h1": 500, "proto_h2c": 500,
-				"role_primary": 10, "role_replica": 10, "role_noprimary": 10, "final_commit_ok": 10}
+				"role_primary": 10, "role_replica": 10, "role_noprimary": 10, "final_commit_ok": 10, "holder_hostile_tx": 90}
 			for _, e := range c20Endpoints {
 				m["ep_"+strings.TrimPrefix(e, "/")] = 60
 			}
@@ -205,7 +205,7 @@ func runC20(c *core.Case) {
 		img.PageN = n
 		return img.Bytes()
 	}
-	var heldHalts []string
+	heldHalts := map[string]string{} // database name -> id of the halt lock a valid request took
 
 	gen := func() c20Req {
 		r := c20Req{Method: pick(c, []string{"GET", "POST", "DELETE", "PUT", "HEAD", "PATCH", "OPTIONS"}), H2: c.Rng.IntN(2) == 0}
@@ -245,12 +245,19 @@ func runC20(c *core.Case) {
 		case "huge":
 			q.Set("id", "99999999999999999999999")
 			q.Set("lockID", "99999999999999999999999")
+		}
+		if r.Path == "/tx" && heldHalts[q.Get("name")] != "" && c.Rng.IntN(3) != 0 {
+			idCls = "held"
+		}
+		switch idCls {
 		case "held":
-			if len(heldHalts) > 0 {
-				q.Set("id", heldHalts[c.Rng.IntN(len(heldHalts))])
-				q.Set("lockID", q.Get("id"))
+			if id := heldHalts[q.Get("name")]; id != "" {
+				q.Set("id", id)
+				q.Set("lockID", id)
 			} else {
 				idCls = "missing"
+				q.Del("id")
+				q.Del("lockID")
 			}
 		}
 		nodeCls := pick(c, []string{"missing", "garbage", "unknown", "own"})
@@ -308,6 +315,16 @@ func runC20(c *core.Case) {
 			case "/tx":
 				if img := curImg(); img != nil && isPrimary {
 					r.Body = forgeLTX(cl.Nodes[0], img, 0x7777)
+					if r.BodyKind == "truncated" && c.Rng.IntN(2) == 0 {
+						// a file whose header says "snapshot" (min TXID 1) but whose
+						// body is cut or corrupt: must be rejected without side effects
+						r.Body = forgeSnapshotLTX(img, uint64(cl.Nodes[0].Store.DB("db").Pos().TXID))
+						if c.Rng.IntN(2) == 0 && len(r.Body) > 120 {
+							r.Body[110] ^= 0xFF
+							r.BodyKind = "corrupt-snapshot"
+							break
+						}
+					}
 				}
 			case "/stream":
 				var b bytes.Buffer
@@ -410,6 +427,57 @@ func runC20(c *core.Case) {
 	}
 
 	var recent []string
+	// A legitimate halt-lock holder sending unusable transaction files: each must
+	// be rejected without any side effect (the files pass the holder check).
+	if isPrimary {
+		hid := fmt.Sprint(1000 + c.Rng.IntN(1<<20))
+		foreign := "00000000DEADBEEF"
+		if st, err := send(c20Req{Method: "POST", Path: "/halt", Query: "name=db&id=" + hid, NodeID: foreign}); err == nil && st == 200 {
+			img := curImg()
+			good := forgeLTX(cl.Nodes[0], img, 0x7777)
+			snap := forgeSnapshotLTX(img, uint64(cl.Nodes[0].Store.DB("db").Pos().TXID))
+			corrupt := append([]byte(nil), snap...)
+			corrupt[len(corrupt)/2] ^= 0xFF
+			badTrailer := append([]byte(nil), snap...)
+			badTrailer[len(badTrailer)-3] ^= 0xFF
+			goodCorrupt := append([]byte(nil), good...)
+			goodCorrupt[len(goodCorrupt)-20] ^= 0xFF
+			hostile := map[string][]byte{
+				"snapshot-truncated-after-header": snap[:100],
+				"snapshot-truncated-mid-page":     snap[:100+int(ps)/2],
+				"snapshot-truncated-mid-trailer":  snap[:len(snap)-5],
+				"snapshot-corrupt-page":           corrupt,
+				"snapshot-bad-file-checksum":      badTrailer,
+				"next-tx-corrupt-body":            goodCorrupt,
+				"next-tx-truncated":               good[:len(good)-9],
+				"empty":                           {},
+				"garbage":                         bytes.Repeat([]byte{0x5C}, 333),
+			}
+			for kind, body := range hostile {
+				before := stateDigest(target)
+				st, err := send(c20Req{Method: "POST", Path: "/tx", Query: "name=db&lockID=" + hid, NodeID: foreign, Body: body, BodyKind: kind, H2: c.Rng.IntN(2) == 0})
+				c.Count("requests", 1)
+				c.Count("holder_hostile_tx", 1)
+				c.Count("ep_tx", 1)
+				detail := map[string]any{"role": role, "request": "POST /tx from the halt-lock holder, body " + kind}
+				if err != nil {
+					c.Violate("C20/no-http-response/POST /tx", fmt.Sprintf("holder's /tx with a %s body got no response: %v", kind, err), detail)
+					return
+				}
+				if healthViolations(c, target.Node, "holder /tx "+kind, detail) {
+					return
+				}
+				after := stateDigest(target)
+				if after != before || st == 200 {
+					c.Violate("C20/invalid-request-changed-state/POST /tx", fmt.Sprintf("POST /tx from the halt-lock holder with an unusable body (%s) was answered %d and changed databases/positions/logs", kind, st), map[string]any{"digest_before": before, "digest_after": after, "body_kind": kind})
+					return
+				}
+				c.Count("invalid_requests_digest_checked", 1)
+				c.Distinct("primary|POST /tx|holder|" + kind)
+			}
+			_, _ = send(c20Req{Method: "DELETE", Path: "/halt", Query: "name=db&id=" + hid, NodeID: foreign})
+		}
+	}
 	nreq := 60
 	for i := 0; i < nreq; i++ {
 		r := gen()
@@ -453,8 +521,13 @@ func runC20(c *core.Case) {
 			// An oversized body that the server refuses mid-upload can reset the
 			// connection on HTTP/1.1 (the server answered, the client was still
 			// writing): only judged when nothing was being uploaded.
-			blockedByHalt := len(heldHalts) > 0 && isTimeout(terr) && (r.Path == "/import" || r.Path == "/halt" || r.Path == "/export")
-			if blockedByHalt {
+			blockedByHalt := heldHalts[mustQuery(r.Query).Get("name")] != "" && isTimeout(terr) && (r.Path == "/import" || r.Path == "/halt" || r.Path == "/export")
+			if !blockedByHalt && isTimeout(terr) && (r.Path == "/import" || r.Path == "/halt" || r.Path == "/export") {
+				// These endpoints wait for the database's write/read locks. Waiting is
+				// not a missing response (a handler that never returns or leaks a lock
+				// makes the commit + convergence probe at the end of the case fail).
+				c.Count("lock_wait_timeouts_not_judged", 1)
+			} else if blockedByHalt {
 				// the harness itself holds a halt lock on this database through an
 				// earlier valid request: waiting for it is the exclusion at work
 				c.Count("blocked_by_held_halt_lock", 1)
@@ -482,13 +555,16 @@ func runC20(c *core.Case) {
 				return
 			}
 		} else if r.Path == "/halt" && r.Method == "POST" && status == 200 {
-			heldHalts = append(heldHalts, url.Values(mustQuery(r.Query)).Get("id"))
-			if len(heldHalts) > 1 {
-				// LiteFS keeps one halt lock per database: the older ids are gone
-				heldHalts = heldHalts[len(heldHalts)-1:]
-			}
+			heldHalts[mustQuery(r.Query).Get("name")] = mustQuery(r.Query).Get("id")
 		} else if r.Path == "/halt" && r.Method == "DELETE" && status == 200 && r.Invalid == "" {
-			heldHalts = nil
+			delete(heldHalts, mustQuery(r.Query).Get("name"))
+		} else if r.Path == "/tx" && status == 200 && isPrimary && r.Invalid == "" {
+			// a forwarded transaction from the (harness-held) halt lock: keep the ledger in step
+			if l, err := mon.DecodeLTXReader(bytes.NewReader(r.Body), "tx"); err == nil {
+				if prevImg, ok := led.get("db", mon.PosKey{TXID: uint64(l.Header.MinTXID) - 1, Chk: uint64(l.Header.PreApplyChecksum)}); ok {
+					led.put("db", mon.PosOf(cl.Nodes[0].Node, "db"), l.Apply(prevImg))
+				}
+			}
 		} else if r.Path == "/import" && status == 200 && isPrimary {
 			// a valid import: keep the ledger in step
 			if name := mustQuery(r.Query).Get("name"); name == "db" {
@@ -511,8 +587,8 @@ func runC20(c *core.Case) {
 		}
 	}
 	// release the halt locks that valid requests took, then the node must still work
-	for _, id := range heldHalts {
-		_, _ = send(c20Req{Method: "DELETE", Path: "/halt", Query: "name=db&id=" + id, NodeID: "00000000DEADBEEF"})
+	for name, id := range heldHalts {
+		_, _ = send(c20Req{Method: "DELETE", Path: "/halt", Query: url.Values{"name": {name}, "id": {id}}.Encode(), NodeID: "00000000DEADBEEF"})
 	}
 	if role != "noprimary" {
 		p := cl.Nodes[0]
@@ -564,6 +640,19 @@ func runC20(c *core.Case) {
 			healthViolations(c, n.Node, "end", nil)
 		}
 	}
+}
+
+// forgeSnapshotLTX builds a well-formed snapshot file (min TXID 1) of img.
+func forgeSnapshotLTX(img *ref.Image, maxTXID uint64) []byte {
+	var buf bytes.Buffer
+	enc := ltx.NewEncoder(&buf)
+	_ = enc.EncodeHeader(ltx.Header{Version: 1, PageSize: img.PageSize, Commit: img.PageN, MinTXID: 1, MaxTXID: ltx.TXID(maxTXID + 1), Timestamp: time.Now().UnixMilli(), NodeID: 0x7777})
+	for p := uint32(1); p <= img.PageN; p++ {
+		_ = enc.EncodePage(ltx.PageHeader{Pgno: p}, img.Page(p))
+	}
+	enc.SetPostApplyChecksum(ltx.Checksum(img.Checksum()))
+	_ = enc.Close()
+	return buf.Bytes()
 }
 
 func mustQuery(q string) url.Values {
